@@ -543,8 +543,12 @@ class NodeDeref:
         if value.isObject():
             member = idx.asString().value
             exists = value.hasItem(member)
+            seen = [value]
             while not exists and value.hasItem("_proto_"):
                 value = value.getItem("_proto_")
+                if not value.isObject() or any(value is s for s in seen):
+                    break
+                seen.append(value)
                 exists = value.hasItem(member)
             if not exists:
                 if self.default_value:
@@ -656,8 +660,12 @@ class NodeDerefInvoke:
         if obj_.isObject():
             obj = obj_
             exists = obj.hasItem(self.member)
+            seen = [obj]
             while not exists and obj.hasItem("_proto_"):
                 obj = obj.getItem("_proto_")
+                if not obj.isObject() or any(obj is s for s in seen):
+                    break
+                seen.append(obj)
                 exists = obj.hasItem(self.member)
             if not exists:
                 raise CklRuntimeError(
